@@ -7,7 +7,10 @@ looks like template syntax, valid UTF-8 bytes, objects whose __str__ returns suc
 "numbers that are not just digits": IntEnum members and int/float subclasses whose __str__/__format__
 return markup, bool, floats).
 Autoescape is configured at every level: loader default / DictLoader(autoescape=...) /
-Template(autoescape=...) for single files / one {% autoescape f|None %} directive anywhere in any file,
+Template(autoescape=...) for single files / a loader subclass whose _create_template passes an explicit
+per-file Template(..., loader=self, autoescape=policy[name]) that differs from the loader's own setting
+(the template's argument governs, the loader's is only the default) / one {% autoescape f|None %}
+directive anywhere in any file,
 with f in xhtml_escape, escape, url_escape, custom namespace functions (myesc; bresc, which wraps its
 result in brackets so that a skipped call is visible even for plain numbers).  Expression tags sit in
 included files, in blocks overridden by children, in apply bodies, loops, try blocks; raw tags too.
@@ -30,7 +33,7 @@ Values whose rendering raises (NameError from an unset local ...) must raise the
 Related open finding (filed under C19, the template is ill-formed): `{% autoescape %}` without a function
 name is accepted and silently turns escaping off for the file (findings_inbox/C19-autoescape-empty-accepted.md).
 
-Sensitivity (quick tier, seed 1, scratch copy of /repo/tornado; all 9 caught; clause after shrinking):
+Sensitivity (quick tier, seed 1, scratch copy of /repo/tornado; all 10 caught; clause after shrinking):
   M1 _Expression.generate consults the root template (include_stack[0]) instead of current_template -> C20.meta_output
   M2 values that are not str/bytes are str()-ed but not escaped                                    -> C20.special_char_without_unescaped_source
   M3 _CodeWriter.include() does not restore current_template on exit                              -> C20.meta_output
@@ -43,6 +46,8 @@ Sensitivity (quick tier, seed 1, scratch copy of /repo/tornado; all 9 caught; cl
      bracket-wrapping escaper were added to the value/function pools)
   M9 same shortcut with an exact type test, type(value) in (int, float, bool)                      -> C20.output
      (bool / plain number under the custom escaper bresc: "False" instead of "[False]")
+  M10 Template.__init__ tests `if loader:` before the explicit autoescape= argument (template-level    -> C20.output (seeds 1, 2, 3;
+     setting ignored whenever a loader is present); was missed before the per-file loader axis           after <= 185 cases)
 """
 import copy
 import logging
@@ -63,7 +68,7 @@ RULE = (
     "literal text over [A-Za-z0-9 SP LF]) whose expression/raw tags read five variables with adversarial values "
     "(<>&\"' around a marker, entity and template-syntax look-alikes, UTF-8 bytes, objects with __str__, int, float, bool, "
     "None, IntEnum and int/float subclasses whose __str__/__format__ return markup); "
-    "autoescape set by loader/Template argument and by at most one directive per file (xhtml_escape, escape, "
+    "autoescape set by loader argument, Template argument (without a loader, and per file through a custom loader) and by at most one directive per file (xhtml_escape, escape, "
     "url_escape, two custom functions, None); plus one metamorphic re-run per case with one file's setting changed.  "
     "non-trivial = >= 2 files governed by different settings and an adversarial value (containing a special "
     "character) rendered through include/extends-block/apply; distinct = SHA-1 of the case"
